@@ -44,6 +44,19 @@ func genConfig(t *rapid.T) Config {
 		perm := rapid.Permutation(seq(1, cfg.N)).Draw(t, "lateWho")
 		cfg.Late = append(cfg.Late, perm[:k]...)
 	}
+	// members that start while the others are already at work; some only after
+	// what the early ones have shared has expired (120 blocks)
+	if cfg.N > 1 && Chance(t, "delays?", 35) {
+		cfg.Delay = map[int]int{}
+		for i := 1; i < cfg.N; i++ {
+			switch Weighted(t, "delayClass", []int{40, 30, 30}) {
+			case 1:
+				cfg.Delay[i] = rapid.IntRange(1, 60).Draw(t, "delayShort")
+			case 2:
+				cfg.Delay[i] = rapid.IntRange(125, 260).Draw(t, "delayLong")
+			}
+		}
+	}
 	nCrash := Weighted(t, "nCrash", []int{45, 30, 15, 10})
 	for i := 0; i < nCrash; i++ {
 		cr := Crash{Member: rapid.IntRange(0, cfg.N-1).Draw(t, "crashMember"), RestartAfter: rapid.IntRange(0, 40).Draw(t, "restartAfter")}
